@@ -29,6 +29,9 @@ func NewRecordBatchFromBytes(data []byte) (RecordBatch, error) {
 	}
 	baseOffset := int64(binary.BigEndian.Uint64(data[0:8]))
 	lastOffsetDelta := int32(binary.BigEndian.Uint32(data[23:27]))
+	if lastOffsetDelta < 0 {
+		return RecordBatch{}, fmt.Errorf("record batch has negative last offset delta: %d", lastOffsetDelta)
+	}
 	messageCount := int32(binary.BigEndian.Uint32(data[57:61]))
 	return RecordBatch{
 		BaseOffset:      baseOffset,
